@@ -53,7 +53,7 @@ REQUIRED_PROBES = {
 }
 
 
-def generate(rng: random.Random, tier: str) -> dict:
+def generate(rng: random.Random, tier: str, allow_starve: bool = True) -> dict:
     config = c06.gen_world_config(rng)
     dtype = rng.choice(["float32", "float32", "float32", "float64", "bfloat16"])
     if dtype == "bfloat16":
@@ -121,7 +121,7 @@ def generate(rng: random.Random, tier: str) -> dict:
     n_events = rng.choice([1, 2, 3, 4, 6, 8] + ([12, 16] if tier == "thorough" else []))
     style = gen.gen_presence_style(rng, len(params))
     style["never"] = []
-    starving_run = rng.random() < 0.1
+    starving_run = rng.random() < 0.1 and allow_starve
     events = []
     prev = None
     prev_g = [None] * len(params)
